@@ -41,6 +41,8 @@ type Case struct {
 	RType   string     `json:"rtype"`
 	NOrder  int        `json:"norder"`
 	Grid    bool       `json:"grid"` // place the vertices on a coarse grid (rings share latitudes / longitudes exactly)
+	Near    bool       `json:"near"` // two sibling rings get vertices a single 1e-7 degree step apart
+	Vers    [][]bool   `json:"vers"` // relation history: vers[v][i] = member way i is reversed at relation version v+1
 	Doc     *DocSpec   `json:"doc"`  // the relation is observed inside a document of several relations sharing ways
 }
 
@@ -72,11 +74,18 @@ type Run struct {
 	Err     string    `json:"err"`
 }
 
+type VerGot struct {
+	Annot []int `json:"annot"` // Member.Orientation of this relation version after annotate.Relations on the history
+	Pipe  Run   `json:"pipe"`  // conversion of this annotated version with the way versions current at it
+}
+
 type Got struct {
-	Runs   []Run  `json:"runs"`
-	Annot  []int  `json:"annot"`
-	AnnErr string `json:"annerr"`
-	Pipe   Run    `json:"pipe"`
+	Runs   []Run    `json:"runs"`
+	Annot  []int    `json:"annot"`
+	AnnErr string   `json:"annerr"`
+	Pipe   Run      `json:"pipe"`
+	Vers   []VerGot `json:"vers"`
+	VErr   string   `json:"verr"`
 }
 
 type Rec struct {
@@ -120,6 +129,10 @@ func place(c *Case, seed uint64, h uint64) *layout {
 	l := &layout{pt: map[int]orb.Point{}, sym: map[orb.Point]int{}, id: map[int]osm.NodeID{}}
 	if c.Grid {
 		placeGrid(c, l, next)
+		return l
+	}
+	if c.Near {
+		placeNear(c, l, next)
 		return l
 	}
 	p := profiles[int(next()*float64(len(profiles)))%len(profiles)]
@@ -318,6 +331,96 @@ func placeGrid(c *Case, l *layout, next func() float64) {
 	}
 }
 
+// ---- near layout ----
+// All vertices on the 1e-7 degree grid of osm coordinates (integers / 1e7). Rings are regular polygons. The first two
+// outers touch almost: one vertex of the first lies exactly one grid step west (or south) of one vertex of the second,
+// same latitude (longitude). Likewise the first two holes of every outer. Which vertex of a ring is the near one is
+// seeded, so over the enumerated cuts it is a cut position or an inner vertex of a way. Rings stay disjoint (discs one
+// step apart), holes strictly inside their outer.
+func placeNear(c *Case, l *layout, next func() float64) {
+	bases := [][2]int64{{133710000, 525103000}, {-818752338, 414176729}, {1502500000, -705000000}, {31000, -17000}, {77000000, 9000000}}
+	b := bases[int(next()*float64(len(bases)))%len(bases)]
+	b[0] += int64(next() * 4096)
+	b[1] += int64(next() * 4096)
+	vert := next() < 0.3
+	const R = 10000 // 0.001 degree
+	rot := func(dx, dy int64) (int64, int64) {
+		if vert {
+			return -dy, dx
+		}
+		return dx, dy
+	}
+	aoff := 0.0
+	if vert {
+		aoff = math.Pi / 2
+	}
+	ring := func(r int, cx, cy int64, rad float64, ang float64) {
+		n := c.G[r-1].N
+		f := 1 + int(next()*float64(n))%n // the vertex placed at angle ang
+		for i := 1; i <= n; i++ {
+			th := ang + aoff + 2*math.Pi*float64(i-f)/float64(n)
+			X := cx + int64(math.Round(rad*math.Cos(th)))
+			Y := cy + int64(math.Round(rad*math.Sin(th)))
+			pt := orb.Point{float64(X) / 1e7, float64(Y) / 1e7}
+			if pt[0] == 0 && pt[1] == 0 {
+				pt[0] = 1e-7
+			}
+			s := r*100 + i
+			if _, dup := l.sym[pt]; dup {
+				vio.Must(fmt.Errorf("two symbols on one coordinate"), "near layout")
+			}
+			l.pt[s], l.sym[pt], l.id[s] = pt, s, osm.NodeID(7000+int64(s))
+		}
+	}
+	centre := map[int][2]int64{}
+	k := int64(0)
+	for r := 1; r <= len(c.G); r++ {
+		if c.G[r-1].Parent != 0 {
+			continue
+		}
+		var dx, dy int64
+		ang := 0.0
+		switch {
+		case k == 1:
+			dx, dy = rot(2*R+1, 0)
+			ang = math.Pi
+		case k >= 2:
+			dx, dy = rot(0, -3*R*(k-1))
+		}
+		centre[r] = [2]int64{b[0] + dx, b[1] + dy}
+		ring(r, centre[r][0], centre[r][1], R, ang)
+		k++
+	}
+	for X := 1; X <= len(c.G); X++ {
+		var hs []int
+		for r := 1; r <= len(c.G); r++ {
+			if c.G[r-1].Parent == X {
+				hs = append(hs, r)
+			}
+		}
+		const rho = R / 10
+		for j, r := range hs {
+			var dx, dy int64
+			rad, ang := float64(rho), 0.0
+			switch {
+			case len(hs) == 1:
+				rad = 2 * rho
+			case j == 0:
+				dx, dy = rot(-rho, 0)
+			case j == 1:
+				dx, dy = rot(rho+1, 0)
+				ang = math.Pi
+			case j == 2:
+				dx, dy = rot(0, 2*rho+rho/2)
+				rad = 0.6 * rho
+			default:
+				vio.Must(fmt.Errorf("%d holes in one outer", len(hs)), "near layout")
+			}
+			ring(r, centre[X][0]+dx, centre[X][1]+dy, rad, ang)
+		}
+	}
+}
+
 func (l *layout) ring(r orb.Ring) []int {
 	out := make([]int, len(r))
 	for i, p := range r {
@@ -463,7 +566,83 @@ func doCase(c *Case, seed uint64, line []byte) Got {
 	}
 	// production pipeline: convert the relation as annotated by the real annotator
 	got.Pipe = convert(o, l, "waynodes", 0)
+	doVersions(c, l, &got)
 	return got
+}
+
+// doVersions: a history of the relation with identical member lists (one version per entry of c.Vers); member way i
+// gets a new version with its nodes in opposite order whenever c.Vers[v][i] changes from one relation version to the
+// next. All relation versions are annotated in ONE annotate.Relations call; every annotated version is converted
+// together with the way versions current at it.
+func doVersions(c *Case, l *layout, got *Got) {
+	got.Vers = []VerGot{}
+	if len(c.Vers) == 0 {
+		return
+	}
+	day := 24 * time.Hour
+	wayNodes := func(m Member, rev bool) osm.WayNodes {
+		var wn osm.WayNodes
+		for _, s := range m.Nodes {
+			wn = append(wn, osm.WayNode{ID: l.id[s], Version: 1, ChangesetID: 1, Lon: l.pt[s][0], Lat: l.pt[s][1]})
+		}
+		if rev {
+			for a, b := 0, len(wn)-1; a < b; a, b = a+1, b-1 {
+				wn[a], wn[b] = wn[b], wn[a]
+			}
+		}
+		return wn
+	}
+	var hist osm.Ways                          // all way versions
+	current := make([][]*osm.Way, len(c.Vers)) // way versions current at each relation version
+	for i, m := range c.Members {
+		id := osm.WayID(500 + i)
+		var cur *osm.Way
+		for v := range c.Vers {
+			rev := c.Vers[v][i]
+			if cur == nil || rev != c.Vers[v-1][i] {
+				ver := 1
+				ts := t0
+				if cur != nil {
+					ver = cur.Version + 1
+					ts = t0.Add(time.Duration(20*v) * day) // between relation versions v and v+1
+				}
+				cur = &osm.Way{ID: id, Version: ver, ChangesetID: osm.ChangesetID(1 + 2*v), Visible: true, Timestamp: ts, Nodes: wayNodes(m, rev)}
+				hist = append(hist, cur)
+			}
+			current[v] = append(current[v], cur)
+		}
+	}
+	var rels osm.Relations
+	for v := range c.Vers {
+		rel := &osm.Relation{ID: 7, Version: v + 1, ChangesetID: osm.ChangesetID(2 + 2*v), Visible: true,
+			Timestamp: t0.Add(time.Duration(20*v+10) * day), Tags: osm.Tags{{Key: "type", Value: c.RType}}}
+		if v > 0 {
+			rel.Tags = append(rel.Tags, osm.Tag{Key: "note", Value: fmt.Sprintf("edit %d", v)})
+		}
+		for i, m := range c.Members {
+			rel.Members = append(rel.Members, osm.Member{Type: osm.TypeWay, Ref: int64(500 + i), Role: m.Role})
+		}
+		rels = append(rels, rel)
+	}
+	func() {
+		defer func() {
+			if r := recover(); r != nil {
+				got.VErr = "crash: " + fmt.Sprint(r)
+			}
+		}()
+		ds := (&osm.OSM{Ways: hist}).HistoryDatasource()
+		if err := annotate.Relations(context.Background(), rels, ds, annotate.Threshold(time.Hour)); err != nil {
+			got.VErr = err.Error()
+		}
+	}()
+	for v, rel := range rels {
+		vg := VerGot{Annot: []int{}}
+		for _, m := range rel.Members {
+			vg.Annot = append(vg.Annot, int(m.Orientation))
+		}
+		vg.Pipe = convert(&osm.OSM{Relations: osm.Relations{rel}, Ways: current[v]}, l, "waynodes", 0)
+		got.Vers = append(got.Vers, vg)
+	}
 }
 
 // ---- documents: several relations sharing ways ----
@@ -715,7 +894,7 @@ func doDoc(c *Case, seed uint64, line []byte) Got {
 			}
 		}
 	}
-	got := Got{Runs: []Run{}, Annot: []int{}}
+	got := Got{Runs: []Run{}, Annot: []int{}, Vers: []VerGot{}}
 	for _, src := range []string{"nodes", "waynodes"} {
 		for mi := range c.Masks {
 			if src == "waynodes" && mi >= 2 {
